@@ -99,16 +99,19 @@ theorem handleByObj_sim (h : Q ρ t u) {o o' : Nat} (ho : ρ o o') :
 
 theorem modeRule_sim (h : Q ρ t u) (P : Prog) (op : Op) : Spec.modeRule P u op = Spec.modeRule P t op := by
   cases op <;> try rfl
-  rename_i k g sv first mv
-  simp only [Spec.modeRule]
-  split
-  · have hS := h.S.get sv
-    generalize aget t.S sv = x at hS
-    generalize aget u.S sv = y at hS
-    cases hS with
-    | none => rfl
-    | some hv => simp only [hv.slot.empty]
-  · rfl
+  · rename_i k g sv first mv
+    simp only [Spec.modeRule, h.steps]
+    split
+    · rfl
+    · split
+      · have hS := h.S.get sv
+        generalize aget t.S sv = x at hS
+        generalize aget u.S sv = y at hS
+        cases hS with
+        | none => rfl
+        | some hv => simp only [hv.slot.empty]
+      · rfl
+  · simp only [Spec.modeRule, h.steps]
 
 /-! ## the prologue of an emission -/
 
